@@ -245,7 +245,7 @@ func twoStepPairs(tier string) [][3]int {
 		if tier == "thorough" {
 			mask = all
 		}
-		if op != mvn && op != mvp && op != 0xEB {
+		if op != mvn && op != mvp && op != 0xEB && op != 0xFB {
 			prs = append(prs, [3]int{op, op, mask})
 		}
 		if tier == "thorough" && op != mvn && op != mvp && op != 0xAD {
@@ -253,6 +253,23 @@ func twoStepPairs(tier string) [][3]int {
 		}
 	}
 	return prs
+}
+
+// threeStepTriples: save, disturb, restore - and use, overwrite behind the interpreter's back, use again.
+func threeStepTriples() [][3]int {
+	var ts [][3]int
+	// PHP, an instruction that changes flags without going through the status-byte unpacking, PLP
+	for _, mid := range []int{0x18, 0x38, 0x78, 0x58, 0xF8, 0xD8, 0xB8, 0xA9, 0xC9, 0xE8, 0xC2, 0xE2} {
+		ts = append(ts, [3]int{0x08, mid, 0x28})
+	}
+	// an indirect access, a store that does not use the ordinary store path (push, block move), the access again
+	for _, acc := range []int{0xB2, 0xB1, 0xA1, 0xA7, 0xB7, 0x92} {
+		for _, mid := range []int{0xF4, 0x48, 0x08, 0x8D} {
+			ts = append(ts, [3]int{acc, mid, acc})
+		}
+	}
+	ts = append(ts, [3]int{0xB2, 0x54, 0xB2}, [3]int{0x54, 0x54, 0x54}, [3]int{0x44, 0x44, 0x44}, [3]int{0xE2, 0xEB, 0xC2}, [3]int{0xC2, 0xAA, 0xE2}, [3]int{0x8D, 0xEE, 0xAD}, [3]int{0x20, 0xE8, 0x60}, [3]int{0x48, 0xEB, 0x68})
+	return ts
 }
 
 var cpuNames = []string{"main", "alt"}
@@ -273,6 +290,12 @@ func init() {
 						js = append(js, job("c01", "Step", fmt.Sprintf("c01/%s/%s/m%dx%d", cpuNames[cpu], opName(op), m, x), int64(cpu), int64(op), int64(m), int64(x)))
 					}
 				}
+				for _, tr := range threeStepTriples() {
+					for mx := 0; mx < 4; mx++ {
+						m, x := mx>>1, mx&1
+						js = append(js, job("c01", "Step3", fmt.Sprintf("c01/three-steps/%s/%s-then-%s-then-%s/m%dx%d", cpuNames[cpu], opName(tr[0]), opName(tr[1]), opName(tr[2]), m, x), int64(cpu), int64(tr[0]), int64(tr[1]), int64(tr[2]), int64(m), int64(x)))
+					}
+				}
 				for _, pr := range twoStepPairs(tier) {
 					for mx := 0; mx < 4; mx++ {
 						if pr[2]>>mx&1 == 0 {
@@ -285,8 +308,9 @@ func init() {
 			}
 			return js
 		},
-		Bounds:           []string{"one instruction (Step is loop-free; MVN/MVP move one byte per Step) from an arbitrary native-mode state", "all 256 opcodes x 4 (m,x) settings x 2 interpreters enumerated as separate jobs; every register, flag, hidden register copy and all 16 MiB of memory symbolic", "instruction sequences: by induction, the post-state again satisfies the only invariant assumed of the pre-state (flag bytes in {0,1})"},
-		Outside:          []string{"emulation mode (E=1 before the step)", "pending interrupts", "decimal ADC/SBC with invalid BCD digits; the V flag after decimal ADC/SBC", "WAI/STP wake-up", "cycle counts (C02/C12)"},
+		Bounds:           []string{"one instruction (Step is loop-free; MVN/MVP move one byte per Step) from an arbitrary native-mode state", "all 256 opcodes x 4 (m,x) settings x 2 interpreters enumerated as separate jobs; every register, flag, hidden register copy and all 16 MiB of memory symbolic", "instruction sequences: by induction, the post-state again satisfies the only invariant assumed of the pre-state (flag bytes in {0,1})", "two consecutive instructions (Step2) for state kept between steps outside the listed CPU fields: MVN/MVP in all four orders, block moves next to loads/stores/width switches, 21 save/restore brackets (PHP-PLP, BRK/COP-RTI/PLP, JSR-RTS, JSL-RTL, ...) at all widths, and every opcode twice in a row (quick: at one width setting, op%4; thorough: all four, plus every opcode after MVN)", "three consecutive instructions (Step3): 44 triples at all widths - PHP / a flag-changing instruction / PLP, an indirect access / a push, block move or store / the same access again, MVN and MVP three times, five width-switch and call/return triples"},
+		Outside:          []string{"emulation mode (E=1 before the step)", "pending interrupts", "decimal ADC/SBC with invalid BCD digits; the V flag after decimal ADC/SBC", "WAI/STP wake-up", "cycle counts (C02/C12)", "sequences of four or more instructions other than by the induction above; opcode pairs and triples not listed under bounds", "in the two-instruction jobs: a first instruction that disagrees with the model (assumed to agree; reported by the one-step jobs), STP/WAI as the first instruction"},
+		Assumptions:      []string{"two- and three-instruction jobs: the harness stores each later opcode under the program counter the instruction before left, in the memory of model and implementation alike (for a repeating block move this is the byte already there)"},
 		Explanation:      "real Step of either interpreter vs. spec/w65816 reference on the abstraction of the same symbolic pre-state and memory; one labelled obligation per architectural component",
 		ConformanceQuick: 64, ConformanceThorough: 2048,
 	})
@@ -308,6 +332,11 @@ func init() {
 					}
 				}
 			}
+			for _, tr := range threeStepTriples() {
+				for mode := 0; mode < 4; mode++ {
+					js = append(js, job("c02", "Lockstep3", fmt.Sprintf("c02/three-steps/%s-then-%s-then-%s/%s", opName(tr[0]), opName(tr[1]), opName(tr[2]), modeNames[mode]), int64(tr[0]), int64(tr[1]), int64(tr[2]), int64(mode)))
+				}
+			}
 			for _, pr := range twoStepPairs(tier) {
 				for mode := 0; mode < 4; mode++ {
 					if pr[2]>>mode&1 == 0 {
@@ -320,7 +349,7 @@ func init() {
 			js = append(js, job("c02", "Fresh", "c02/api/fresh-cpus/opc2-rep", 0xC2), job("c02", "Fresh", "c02/api/fresh-cpus/opad-lda-a", 0xAD))
 			return js
 		},
-		Bounds:           []string{"one Step of each interpreter from one common arbitrary state: 256 opcodes x {4 native width settings, emulation mode}; all registers, hidden copies, D flag, stop latch, cycle counters, interrupt latch (none/NMI/IRQ) and 16 MiB memory symbolic", "any number of steps: by induction (equal post-states are a common pre-state again)", "the same step on a cpualt CPU made with InitFrom from the live one (native mode, no pending interrupt), which must also leave the original untouched"},
+		Bounds:           []string{"one Step of each interpreter from one common arbitrary state: 256 opcodes x {4 native width settings, emulation mode}; all registers, hidden copies, D flag, stop latch, cycle counters, interrupt latch (none/NMI/IRQ) and 16 MiB memory symbolic", "any number of steps: by induction (equal post-states are a common pre-state again)", "the same step on a cpualt CPU made with InitFrom from the live one (native mode, no pending interrupt), which must also leave the original untouched", "two consecutive Steps of both (Lockstep2, native mode, no pending interrupt): the opcode pairs and triples of C01's multi-instruction jobs (Lockstep3 for three); everything compared after the last"},
 		Outside:          []string{"emulation mode with m=0 or x=0 (unreachable: XCE forces both)", "interrupt entry with the handler opcode inside the pushed stack frame (see assumptions)", "OnPC/OnWDM callbacks (C12)"},
 		Explanation:      "both real Step functions run on the same symbolic state and memory; every exported register/flag/counter, the return values, failure status and memory (extensional) are compared",
 		ConformanceQuick: 64, ConformanceThorough: 2048,
